@@ -39,6 +39,18 @@ def Pc.expects : Pc → Option Nonce
   | .bPeek x _ | .bRename x _ => some x
   | _ => none
 
+/-- the lock a `force_break` called from `_handle_lock_contention` (a steal) is working on -/
+def Pc.stealing : Pc → Option Nonce
+  | .bPeek x true | .bRename x true | .bRead x true => some x
+  | _ => none
+
+/-- pcs of a break the *user* asked for: `break_lock`, its `force_break` (`ret = false`)
+and `force_break_corrupt` -/
+def Pc.userBreaky : Pc → Bool
+  | .kPeek | .xRename _ | .xRead _ | .xDelete | .xRmdir => true
+  | .bPeek _ r | .bRename _ r | .bRead _ r | .bDelete r | .bRmdir r => !r
+  | _ => false
+
 def okDir (x : Nonce) : Option Dir := some (some (.ok x))
 
 section
@@ -162,6 +174,39 @@ theorem lstep_expects (x : Nonce) :
         (lstep id cfg crashed me held).2.1 = held) := by
   lstep_cases
 
+/-! #### steals (`force_break` from `_handle_lock_contention`) and user breaks -/
+
+macro "lstep_cases'" : tactic =>
+  `(tactic| (unfold lstep
+             split <;> (try split) <;> (try split) <;> (try split) <;>
+               (try simp_all [Locker.claims, okDir, Pc.breaky, Pc.stealing, Pc.userBreaky, breakErr_pc,
+                  Pc.decided, Pc.corruptBreak, Pc.needsHeld, Pc.hasPend, Pc.expects, peekDir]) <;>
+               (try split) <;>
+               (try simp_all [Locker.claims, okDir, Pc.breaky, Pc.stealing, Pc.userBreaky, breakErr_pc,
+                  Pc.decided, Pc.corruptBreak, Pc.needsHeld, Pc.hasPend, Pc.expects, peekDir]) <;>
+               (try grind)))
+
+/-- a steal of the lock `x` is either already in progress, or starts in this step from the
+contention peek of an attempt that saw `x` in `held/` and found its holder known dead,
+with `locks.steal_dead` on -/
+theorem lstep_stealing (x : Nonce) :
+    (lstep id cfg crashed me held).1.pc.stealing = some x →
+      me.pc.stealing = some x ∨
+      (me.pc = .aPeekC ∧ held = okDir x ∧ stealable cfg crashed id x = true ∧ (cfg id).steal = true) := by
+  lstep_cases'
+
+/-- a step never enters a user break: those start only with `break_lock` (`startOp`) -/
+theorem lstep_userBreaky :
+    (lstep id cfg crashed me held).1.pc.userBreaky = true → me.pc.userBreaky = true := by
+  lstep_cases'
+
+/-- a decision to break is taken by the user (`break_lock`'s peek) or is a steal of a lock
+whose holder `is_lock_holder_known_dead` -/
+theorem lstep_decision_kind (d : Option Nonce) :
+    (lstep id cfg crashed me held).2.2 = some d →
+      me.pc = .kPeek ∨ (∃ x, d = some x ∧ me.pc = .aPeekC ∧ stealable cfg crashed id x = true) := by
+  lstep_cases'
+
 end
 
 /-! ### fault injection and operation start -/
@@ -171,7 +216,7 @@ variable (k : FaultKind) (me : Locker) (op : Op)
 macro "lfault_cases" : tactic =>
   `(tactic| (unfold lfault
              split <;> (try simp_all [Locker.claims, okDir, Pc.breaky, Pc.decided, Pc.corruptBreak,
-                 Pc.needsHeld, Pc.hasPend, Pc.expects]) <;> (try grind)))
+                 Pc.needsHeld, Pc.hasPend, Pc.expects, Pc.stealing, Pc.userBreaky]) <;> (try grind)))
 
 theorem lfault_claims : (lfault k me).claims = true → me.claims = true := by lfault_cases
 theorem lfault_held : (lfault k me).held = me.held := by lfault_cases
@@ -179,6 +224,8 @@ theorem lfault_breaky : (lfault k me).pc.breaky = false := by lfault_cases
 theorem lfault_needs : (lfault k me).pc.needsHeld = false := by lfault_cases
 theorem lfault_pend : (lfault k me).pc.hasPend = true → me.pc.hasPend = true ∧ (lfault k me).pend = me.pend := by
   lfault_cases
+theorem lfault_stealing : (lfault k me).pc.stealing = none := by lfault_cases
+theorem lfault_userBreaky : (lfault k me).pc.userBreaky = false := by lfault_cases
 theorem lfault_idle : me.pc = .idle → lfault k me = me := by intro h; unfold lfault; simp [h]
 
 theorem breaky_of_decided {p : Pc} : p.decided = true → p.breaky = true := by
@@ -198,6 +245,10 @@ theorem start_breaky : (startOp me op).pc.breaky = true → op = .brk ∧ me.hel
   unfold startOp; cases op <;> cases hh : me.held <;> simp [Locker.done, Pc.breaky]
 theorem start_decided : (startOp me op).pc.decided = false := by
   unfold startOp; cases op <;> cases hh : me.held <;> simp [Locker.done, Pc.decided]
+theorem start_stealing : (startOp me op).pc.stealing = none := by
+  unfold startOp; cases op <;> cases hh : me.held <;> simp [Locker.done, Pc.stealing]
+theorem start_userBreaky : (startOp me op).pc.userBreaky = true → op = .brk := by
+  unfold startOp; cases op <;> cases hh : me.held <;> simp [Locker.done, Pc.userBreaky]
 theorem start_hasPend : (startOp me op).pc.hasPend = false := by
   unfold startOp; cases op <;> cases hh : me.held <;> simp [Locker.done, Pc.hasPend]
 end
